@@ -233,12 +233,13 @@ class Slice:
 
 
 class Str:
-    __slots__ = ("py", "term", "len")
+    __slots__ = ("py", "term", "len", "ite")
 
-    def __init__(self, py, term, ln):
+    def __init__(self, py, term, ln, ite=None):
         self.py = py
         self.term = term
         self.len = ln
+        self.ite = ite     # (cond, then Str, else Str) when this string is a merge of two strings
 
     def __repr__(self):
         return "Str(%r)" % (self.py if self.py is not None else self.term)
@@ -400,7 +401,7 @@ def ite(c, a, b):
     if ta is Str:
         if a.py is not None and a.py == b.py:
             return a
-        return Str(None, zif(c, a.term, b.term), zif(c, a.len, b.len))
+        return Str(None, zif(c, a.term, b.term), zif(c, a.len, b.len), ite=(c, a, b))
     if ta is Iface:
         alts = [(And(c, ac), at, ap) for ac, at, ap in a.alts] + [(And(Not(c), bc), bt, bp) for bc, bt, bp in b.alts]
         return norm_iface(alts)
